@@ -2,11 +2,15 @@ import Rare.Proofs.C07SubKey
 import Rare.Proofs.C07MinMax
 import Rare.Proofs.C07Num
 import Rare.Proofs.C07TrimLink
+import Rare.Proofs.C07Acc
+import Rare.Proofs.C07Mode
+import Rare.Spec.C07Mode
 /-!
 C07 – Aggregators compute the exact fold of their sample history.
 
 Spec: `Rare/Spec/C07.lean` (folds over the parsed history).  Model: `Rare/Model/C07.lean`
-(mirror of counter.go, countersubkey.go, table.go, numerical.go, splitter.go after the `fix:` commits).
+(mirror of counter.go, countersubkey.go, table.go, numerical.go, splitter.go after the `fix:` commits)
+and `Rare/Model/C07Acc.lean` (accumulator.go; spec `Rare/Spec/C07Acc.lean`).
 Every theorem quantifies over ALL histories (`List Bytes` of raw sample strings); int64 results are
 `wrap64` of the exact sum, i.e. the exact sum whenever it is representable (`total_exact`).
 Floating point: the numerical theorems are about the model instantiated with `Rat`; the same
@@ -14,6 +18,7 @@ polymorphic definitions instantiated with IEEE doubles are compared bit for bit 
 the correspondence driver (partial: no theorem mentions `Float`).
 -/
 namespace Rare.C07
+open Rare.Expr (Comp Stage Ctx)
 
 /-! ## the splitter (F9 fixed: advance by `len(Delim)`) -/
 
@@ -320,9 +325,40 @@ theorem order_stats (rev : Bool) (l : List Rat) (hne : l ≠ []) :
     obtain ⟨x, hx, hm⟩ := quantile_total rev l idx
     exact ⟨x, hx, hm hne⟩
 
-/-- `Mode` returns one of the samples. (That it has maximal multiplicity is covered by correspondence only.) -/
-theorem mode_is_sample_partial (rev : Bool) (l : List Rat) (hne : l ≠ []) :
-    mode 0 (fun a b => decide (a = b)) (analyze ratOps rev l) ∈ l := mode_mem rev l hne
+/-- `Mode()` exactly.  The returned value is a sample of maximal multiplicity (`IsMode`).  Ties are NOT left
+to chance: `Mode` scans the ordered values for the longest run and keeps the first one, so among several
+values of maximal multiplicity it returns the smallest (the largest when `Reverse` is set) – there is no map
+iteration in `Mode`, and the result is the same for every arrival order of the samples. -/
+theorem mode_spec (rev : Bool) (l : List Rat) (hne : l ≠ []) :
+    let m := mode 0 (fun a b => decide (a = b)) (analyze ratOps rev l)
+    IsMode l m ∧
+    (∀ y, l.count y = l.count m → y ≠ m → if rev then y < m else m < y) ∧
+    (∀ l' : List Rat, l'.Perm l → mode 0 (fun a b => decide (a = b)) (analyze ratOps rev l') = m) := by
+  intro m
+  obtain ⟨hperm, hsorted⟩ := analyze_sorted rev l
+  have hne' : analyze ratOps rev l ≠ [] := by
+    intro h; rw [h] at hperm; exact hne hperm.symm.eq_nil
+  have hanti : ∀ a b : Rat, (if rev then b ≤ a else a ≤ b) → (if rev then a ≤ b else b ≤ a) → a = b := by
+    intro a b h1 h2
+    cases rev
+    · exact Rat.le_antisymm h1 h2
+    · exact Rat.le_antisymm h2 h1
+  obtain ⟨hm, hb, ht⟩ := mode_scan (fun a b => if rev then b ≤ a else a ≤ b) hanti _ hne' hsorted
+  have hc : ∀ y, (analyze ratOps rev l).count y = l.count y := fun y => hperm.count_eq y
+  refine ⟨⟨hperm.mem_iff.mp hm, fun y => by rw [← hc y, ← hc m]; exact hb y⟩, ?_, ?_⟩
+  · intro y hy hne2
+    have := ht y (by rw [hc y, hc]; exact hy) hne2
+    cases rev
+    · simp only [Bool.false_eq_true, if_false] at this ⊢
+      exact Rat.lt_of_le_of_ne this (fun e => hne2 e.symm)
+    · simp only [if_true] at this ⊢
+      exact Rat.lt_of_le_of_ne this hne2
+  · intro l' hp
+    obtain ⟨hperm', hsorted'⟩ := analyze_sorted rev l'
+    have : analyze ratOps rev l' = analyze ratOps rev l :=
+      List.Perm.eq_of_pairwise (fun a b _ _ h1 h2 => hanti a b h1 h2) hsorted' hsorted
+        ((hperm'.trans hp).trans hperm.symm)
+    rw [this]
 
 /-! ## non-vacuity: the hypotheses are satisfiable on concrete non-trivial values -/
 
@@ -349,5 +385,262 @@ example : (exTable.trim (fun c _ _ => c == [120]) (akeys exTable.cols) (fun _ =>
     (exTable.trim (fun c _ _ => c == [120]) (akeys exTable.cols) (fun _ => akeys exTable.rows)).1.sum = 1 := by decide
 example : SumsOK exTable := sumsOK_of_inv _ _ (tableInv_run [0] (by decide) _)
 example : inInt64 (sumBy (incIf selAll) [⟨[97], [], some 5⟩, ⟨[98], [], none⟩]) = true := by decide
+
+/-! ## accumulating group (`rare reduce`, accumulator.go after the fixes 392a859, b9dd8f5)
+
+Spec: `Rare/Spec/C07Acc.lean`; model: `Rare/Model/C07Acc.lean`.  A compiled expression is ANY tree of
+context look-ups (`Stage`), so every statement holds for every expression language and every function
+library; `.error` stands for a Go panic inside an expression and is propagated, never swallowed. -/
+
+/-- What the accumulator context answers: `{0}` is the whole element, `{n}` (n ≥ 1) the n-th
+NUL-separated part – computed by the splitter loop, for every index including negative and huge ones –
+and the sort context numbers the parts of the group key from 0. -/
+theorem accgroup_context (m : Bytes) (idx : Int) :
+    accGetMatch m idx = partOf m idx ∧
+    sortGetMatch m idx = (if idx < 0 then [] else (splitOn nul m).getD idx.toNat []) :=
+  ⟨congrFun (accGetMatch_eq m) idx, sortGetMatch_eq m idx⟩
+
+/-- Invariant of every reachable aggregator (any sequence of AddGroupExpr / AddDataExpr / SetSort / Sample
+calls that did not panic): data-column names are distinct, the name→index map is exactly the inverse of the
+column list, every row has exactly one entry per data column, every index the look-up closure can use is
+inside every row (so no `rowData[idx]` can panic and no default value is ever taken), each group is stored
+once. -/
+theorem accgroup_invariant (s : AccGroup) (h : AccReach s) :
+    s.dataCols.Nodup ∧ s.groupCols.Nodup ∧
+    (∀ k j, aget s.colIdx k = some j ↔ s.dataCols[j]? = some k) ∧
+    (∀ g row, aget s.data g = some row → row.length = s.colDef.length) ∧
+    (∀ g row key j, aget s.data g = some row → aget s.colIdx key = some j → j < row.length) ∧
+    (akeys s.data).Nodup := by
+  have wf := reach_accwf h
+  refine ⟨wf.names_nodup, wf.gnames_nodup, wf.idx, wf.rows, ?_, reach_keys_nodup h⟩
+  intro g row key j hg hk
+  exact accKeyLookup_in_range s wf key j row (wf.rows g row hg) hk
+
+/-- MAIN THEOREM.  For every reachable aggregator (every definition list, whatever rows it already holds)
+and every further sample sequence: the model and the spec fold – started from the map the aggregator holds –
+either both fail with the same panic, or both succeed and the aggregator holds exactly the spec map; the
+definitions are untouched. -/
+theorem accgroup_fold (s0 : AccGroup) (h0 : AccReach s0) (h : List Bytes) :
+    match s0.run h, h.foldlM (specSample s0.specGroups s0.specCols) (fun k => aget s0.data k) with
+    | .ok s, .ok st => (∀ k, aget s.data k = st k) ∧ SameDefs s0 s ∧ AccReach s0
+    | .error m, .error m' => m = m'
+    | _, _ => False := by
+  rcases (run_refines s0 (reach_accwf h0) _ (holds_self s0) h).cases with ⟨s, st, e1, e2, hh, _, sd⟩ | ⟨m, e1, e2⟩
+  · rw [e1, e2]; exact ⟨hh, sd, h0⟩
+  · rw [e1, e2]
+
+/-- The same from a freshly configured aggregator: the state after a history is `specRun` of it. -/
+theorem accgroup_fold_init (s0 : AccGroup) (h0 : AccReach s0) (hempty : s0.data = []) (h : List Bytes) :
+    match s0.run h, specRun s0.specGroups s0.specCols h with
+    | .ok s, .ok st => (∀ k, aget s.data k = st k) ∧ SameDefs s0 s
+    | .error m, .error m' => m = m'
+    | _, _ => False := by
+  have hh : Holds s0 (fun _ => none) := by intro k; rw [hempty]; rfl
+  unfold specRun
+  rcases (run_refines s0 (reach_accwf h0) _ hh h).cases with ⟨s, st, e1, e2, hh', _, sd⟩ | ⟨m, e1, e2⟩
+  · rw [e1, e2]; exact ⟨hh', sd⟩
+  · rw [e1, e2]
+
+/-- Per group: after any accepted history the row of group `k` is the fold of the row update over exactly
+the samples whose group key is `k` (in order) starting from the initial values, and a group exists iff it
+was sampled.  Consequently the state depends only on the per-group sub-histories. -/
+theorem accgroup_group_history (s0 s : AccGroup) (h0 : AccReach s0) (hempty : s0.data = []) (h : List Bytes)
+    (hr : s0.run h = .ok s) (k : Bytes) :
+    ∃ row, (subHistory s0.specGroups h k).foldlM (updRow s0.specCols) (initialRow s0.specCols) = .ok row ∧
+      aget s.data k = if subHistory s0.specGroups h k = [] then none else some row := by
+  have := accgroup_fold_init s0 h0 hempty h
+  rw [hr] at this
+  cases hs : specRun s0.specGroups s0.specCols h with
+  | error m => rw [hs] at this; exact this.elim
+  | ok st =>
+    rw [hs] at this
+    obtain ⟨row, a, b⟩ := specRun_sub _ _ h st hs k
+    exact ⟨row, a, by rw [this.1 k]; exact b⟩
+
+/-- Two histories with the same per-group sub-histories (any interleaving of the groups) that are both
+accepted leave the same rows. -/
+theorem accgroup_interleave (s0 s1 s2 : AccGroup) (h0 : AccReach s0) (hempty : s0.data = []) (h1 h2 : List Bytes)
+    (hsub : ∀ k, subHistory s0.specGroups h1 k = subHistory s0.specGroups h2 k)
+    (r1 : s0.run h1 = .ok s1) (r2 : s0.run h2 = .ok s2) (k : Bytes) : aget s1.data k = aget s2.data k := by
+  obtain ⟨row1, a1, b1⟩ := accgroup_group_history s0 s1 h0 hempty h1 r1 k
+  obtain ⟨row2, a2, b2⟩ := accgroup_group_history s0 s2 h0 hempty h2 r2 k
+  rw [hsub k] at a1 b1
+  rw [a1] at a2; cases a2
+  rw [b1, b2]
+
+/-- Samples of different groups commute (accumulators are order-sensitive WITHIN a group; that is not
+claimed and not true): if `e1; e2` is accepted so is `e2; e1`, with the same rows. -/
+theorem accgroup_comm (s s12 : AccGroup) (h0 : AccReach s) (e1 e2 k1 k2 : Bytes)
+    (hk1 : s.buildGroupKey (accCtx e1 [] none) = .ok k1) (hk2 : s.buildGroupKey (accCtx e2 [] none) = .ok k2)
+    (hne : k1 ≠ k2) (h : s.run [e1, e2] = .ok s12) :
+    ∃ s21, s.run [e2, e1] = .ok s21 ∧ (∀ k, aget s12.data k = aget s21.data k) ∧ SameDefs s12 s21 :=
+  sample_comm_model s s12 (reach_accwf h0) e1 e2 k1 k2 hk1 hk2 hne h
+
+/-- One sample touches only the row of its own group (which exists afterwards). -/
+theorem accgroup_other_groups_untouched (s s' : AccGroup) (e gk : Bytes)
+    (hk : s.buildGroupKey (accCtx e [] none) = .ok gk) (h : s.sample e = .ok s') :
+    (∀ k, k ≠ gk → aget s'.data k = aget s.data k) ∧ (aget s'.data gk).isSome := by
+  unfold AccGroup.sample at h
+  rw [hk] at h
+  simp only at h
+  split at h
+  · cases h
+  · simp only [Except.ok.injEq] at h
+    subst h
+    refine ⟨fun k hne => ?_, ?_⟩
+    · show aget (aset s.data gk _) k = _
+      rw [aget_aset_ne _ _ _ _ (fun e => hne e.symm)]
+    · show (aget (aset s.data gk _) gk).isSome
+      rw [aget_aset_self]; rfl
+
+/-- `ParseErrors()` is constantly 0. -/
+theorem accgroup_parse_errors (s : AccGroup) : s.parseErrors = 0 := rfl
+
+/-- Group keys and `Parts`.  (1) The parts of ANY key joined by NUL give the key back.  (2) A built key is the
+NUL-join of the group values, one per group expression.  (3) `Parts` returns exactly those values iff no value
+contains NUL and the key was not built from a single empty value: (4) a single empty group value gives the key
+"" which has NO parts (not one empty part), and a value containing NUL splits into extra parts. -/
+theorem groupkey_parts (s : AccGroup) (ctx : Ctx) :
+    (∀ k, nulJoin (groupKeyParts k) = k) ∧
+    (∀ k, s.buildGroupKey ctx = .ok k →
+      ∃ vs, s.groupDef.mapM (m := Except String) (fun g => g.expr.run ctx) = .ok vs ∧
+        vs.length = s.groupColCount ∧ k = nulJoin vs ∧
+        (groupKeyParts k = vs ↔ (∀ v ∈ vs, (0 : UInt8) ∉ v) ∧ vs ≠ [[]])) ∧
+    groupKeyParts (nulJoin [[]]) = [] ∧
+    groupKeyParts (nulJoin [[97, 0, 98]]) = [[97], [98]] := by
+  refine ⟨nulJoin_parts, ?_, by decide, ?_⟩
+  case refine_2 =>
+    have h1 : splitOn nul ([97] ++ 0 :: [98]) = [97] :: splitOn nul [98] := splitOn_free_append [97] [98] (by decide)
+    have h2 : splitOn nul [98] = [[98]] := splitOn_free [98] (by decide)
+    show (if ([97, 0, 98] : Bytes) = [] then [] else splitOn nul [97, 0, 98]) = _
+    rw [if_neg (by decide)]
+    exact h1.trans (by rw [h2])
+  intro k hk
+  rw [buildGroupKey_eq] at hk
+  cases hm : s.groupDef.mapM (m := Except String) (fun g => g.expr.run ctx) with
+  | error m => rw [hm] at hk; cases hk
+  | ok vs =>
+    rw [hm] at hk
+    simp only [Except.map, Except.ok.injEq] at hk
+    subst hk
+    refine ⟨vs, rfl, ?_, rfl, parts_nulJoin_iff vs⟩
+    have : ∀ (l : List AccGroupDef) (r : List Bytes),
+        l.mapM (m := Except String) (fun g => g.expr.run ctx) = .ok r → r.length = l.length := by
+      intro l
+      induction l with
+      | nil => intro r h; simp [pure, Except.pure] at h; subst h; rfl
+      | cons g l ih =>
+        intro r h
+        rw [mapM_except_cons] at h
+        cases hg : g.expr.run ctx with
+        | error m => rw [hg] at h; cases h
+        | ok v =>
+          rw [hg] at h
+          simp only at h
+          cases hl : l.mapM (m := Except String) (fun g => g.expr.run ctx) with
+          | error m => rw [hl] at h; cases h
+          | ok r' => rw [hl] at h; simp only [Except.ok.injEq] at h; subst h; simp [ih r' hl]
+    exact this _ _ hm
+
+/-- Which definitions a sequence of configuration calls leaves behind: those whose expression compiled,
+the first of each name, in call order (group names and data names are separate name spaces); no call panics. -/
+theorem accgroup_config (ops : List AccOp) (hcfg : ∀ op ∈ ops, op.isSample = false) :
+    ∃ s, ({} : AccGroup).applyAll ops = .ok s ∧ s.data = [] ∧
+      s.groupDef = (acceptedBy (·.1) (·.2.isSome) (groupCalls ops)).filterMap toGDef ∧
+      s.colDef = (acceptedBy (·.1) (·.2.1.isSome) (dataCalls ops)).filterMap toDDef := by
+  obtain ⟨s, hs, inv⟩ := cfg_applyAll ops hcfg {} [] [] cfg_init
+  refine ⟨s, hs, inv.nodata, ?_, ?_⟩
+  · rw [inv.groups, accept_foldl]
+    have : ∀ l : List GCall, l.filter (fun _ => true) = l := fun l => List.filter_eq_self.mpr (by simp)
+    simp [this]
+  · rw [inv.cols, accept_foldl]
+    have : ∀ l : List DCall, l.filter (fun _ => true) = l := fun l => List.filter_eq_self.mpr (by simp)
+    simp [this]
+
+/-- Once data exists both `Add…` calls are refused and change nothing; a duplicate name is refused. -/
+theorem accgroup_frozen (s : AccGroup) (n i : Bytes) (c : Option Stage) :
+    (s.data ≠ [] → s.addGroupExpr n c = (s, some "existing-data") ∧ s.addDataExpr n c i = (s, some "existing-data")) ∧
+    (s.data = [] → n ∈ s.groupCols → s.addGroupExpr n c = (s, some "duplicate")) ∧
+    (s.data = [] → (aget s.colIdx n).isSome → s.addDataExpr n c i = (s, some "duplicate")) := by
+  refine ⟨?_, ?_, ?_⟩
+  · intro h
+    have : s.data.length > 0 := List.length_pos_iff.mpr h
+    simp [AccGroup.addGroupExpr, AccGroup.addDataExpr, this]
+  · intro h hn
+    have hany : s.groupDef.any (fun g => g.name == n) = true := by
+      obtain ⟨g, hg, hgn⟩ := List.mem_map.mp hn
+      exact List.any_eq_true.mpr ⟨g, hg, by simp [hgn]⟩
+    simp [AccGroup.addGroupExpr, h, hany]
+  · intro h hn
+    simp [AccGroup.addDataExpr, h, hn]
+
+/-- `Groups(sort)` for a sorter that is a strict total order (e.g. `ByName` = `bLt`): the answer is a
+permutation of the group keys, sorted by `less` – or, with a sort expression, by (sort key under `less`,
+then group key) – and it does not depend on Go's map iteration order. -/
+theorem accgroup_groups (s : AccGroup) (less : Bytes → Bytes → Bool) (hlt : StrictTotal less)
+    (order res : List Bytes) (h : s.groupsWith less order = .ok res) :
+    res.Perm order ∧
+    (match s.sortExpr with
+     | none => res.Pairwise fun a b => (!less b a) = true
+     | some e => res.Pairwise fun a b => (!sortLess less (b, s.sortKeyD e b) (a, s.sortKeyD e a)) = true) ∧
+    (∀ order' res', order'.Perm order → s.groupsWith less order' = .ok res' → res' = res) :=
+  ⟨(groupsWith_spec s less hlt order res h).1, (groupsWith_spec s less hlt order res h).2,
+   fun order' res' hp h' => groupsWith_deterministic s less hlt order' order res' res hp h' h⟩
+
+/-- `Data` / `DataNoCopy` / `DataCount` of a reachable aggregator: the stored row as it is (`Data` pads
+nothing and cuts nothing), an all-empty row of the right width / nil for an unknown group. -/
+theorem accgroup_data_accessors (s : AccGroup) (h : AccReach s) (k : Bytes) :
+    (∀ row, aget s.data k = some row → s.dataOf k = row ∧ s.dataNoCopy k = row) ∧
+    (aget s.data k = none → s.dataOf k = List.replicate s.colDef.length [] ∧ s.dataNoCopy k = []) ∧
+    (s.dataOf k).length = s.dataCols.length ∧ s.colCount = s.groupCols.length + s.dataCols.length ∧
+    s.dataCount = (akeys s.data).length := by
+  have wf := reach_accwf h
+  refine ⟨?_, ?_, by simp [AccGroup.dataOf, AccGroup.dataCols], by simp [AccGroup.colCount, AccGroup.groupCols, AccGroup.dataCols],
+    by simp [AccGroup.dataCount, akeys]⟩
+  · intro row hr
+    exact ⟨dataOf_row s k row hr (wf.rows k row hr), by simp [AccGroup.dataNoCopy, hr]⟩
+  · intro hn
+    exact ⟨dataOf_missing s k hn, by simp [AccGroup.dataNoCopy, hn]⟩
+
+/-! ## non-vacuity for the accumulating group and `Mode` -/
+
+example : IsMode [3, 1, 3, 1, 2] (mode 0 (fun a b => decide (a = b)) (analyze ratOps false [3, 1, 3, 1, 2])) :=
+  (mode_spec false [3, 1, 3, 1, 2] (by decide)).1
+
+/-- `{.}x`: appends an `x` per sample. -/
+def exCount : Stage := Comp.getKey dot fun cur => .ret (cur ++ [120])
+/-- `{c}:{2}`: reads the ALREADY UPDATED column `c` and the second part of the element. -/
+def exLast : Stage := Comp.getKey [99] fun c => Comp.getMatch 2 fun v => .ret (c ++ [58] ++ v)
+/-- `{n}` (the NOT YET updated column `n`, declared after it). -/
+def exPrev : Stage := Comp.key [110]
+/-- group `g={1}`; columns `p={n}`, `c={.}x`, `l={c}:{2}`, `n={2}`. -/
+def exAcc : AccGroup :=
+  let s0 : AccGroup := {}
+  let s1 := (s0.addGroupExpr [103] (some (Comp.match_ 1))).1
+  let s2 := (s1.addDataExpr [112] (some exPrev) []).1
+  let s3 := (s2.addDataExpr [99] (some exCount) []).1
+  let s4 := (s3.addDataExpr [108] (some exLast) [45]).1
+  (s4.addDataExpr [110] (some (Comp.match_ 2)) [48]).1
+
+example : AccReach exAcc :=
+  AccReach.step _ _ (.addData [110] (some (Comp.match_ 2)) [48]) none
+    (AccReach.step _ _ (.addData [108] (some exLast) [45]) none
+      (AccReach.step _ _ (.addData [99] (some exCount) []) none
+        (AccReach.step _ _ (.addData [112] (some exPrev) []) none
+          (AccReach.step _ _ (.addGroup [103] (some (Comp.match_ 1))) none AccReach.init rfl) rfl) rfl) rfl) rfl
+example : exAcc.data = [] := rfl
+/-- `a NUL p`, `b NUL q`, `a NUL r`. -/
+def exAccHist : List Bytes := [[97, 0, 112], [98, 0, 113], [97, 0, 114]]
+/-- group a after two samples: p = previous n, c = "xx", l = "xx:r" (sees the new c), n = "r". -/
+example : (match exAcc.run exAccHist with | .ok s => aget s.data [97] | .error _ => none) =
+    some [[112], [120, 120], [120, 120, 58, 114], [114]] := by decide
+example : (match exAcc.run exAccHist with | .ok s => aget s.data [98] | .error _ => none) =
+    some [[48], [120], [120, 58, 113], [113]] := by decide
+example : (match exAcc.buildGroupKey (accCtx [97, 0, 112] [] none), exAcc.buildGroupKey (accCtx [98, 0, 113] [] none) with
+    | .ok k1, .ok k2 => decide (k1 ≠ k2) | _, _ => false) = true := by decide
+example : StrictTotal bLt := bLt_strictTotal
+example : ∃ res, exAcc.groupsWith bLt [[98], [97]] = .ok res := ⟨_, rfl⟩
+example : ∀ op ∈ [AccOp.addGroup [103] none, AccOp.addData [99] (some exCount) [], AccOp.addData [99] (some exLast) []],
+    op.isSample = false := by decide
 
 end Rare.C07
